@@ -452,3 +452,13 @@ func SortSlice(x any, less func(i, j int) bool) {
 		}
 	}
 }
+
+// Quote stands in for strconv.Quote / strconv.QuoteToASCII: the argument between double quotes,
+// without escaping. The real function branches on the printability of every rune, which multiplies
+// paths over symbolic strings; in this code base quoting only ever feeds error and log text, which
+// no property reads. (A property that depended on the escaping would need the real function.)
+//
+//gosym:replace strconv.Quote strconv.QuoteToASCII
+func Quote(s string) string {
+	return "\"" + s + "\""
+}
